@@ -150,11 +150,31 @@ def snapshot(reg) -> Dict[str, Tuple]:
 
 
 def _kw_value(rng, base: int):
-    """Keyword values: mostly ints, but also None and the falsy values a careless `if value:` / `or` would drop."""
+    """Keyword values: mostly ints, but also None, the falsy values a careless `if value:` / `or` would drop, and array-valued
+    arguments (NumPy / JAX arrays, tuples of numbers) whose `==` / `!=` is not a plain bool."""
     u = rng.random()
-    if u < 0.6:
+    if u < 0.5:
         return int(rng.integers(base, base + 100))
-    return [None, 0, False, "", (), None][int(rng.integers(0, 6))]
+    if u < 0.75:
+        return [None, 0, False, "", (), None][int(rng.integers(0, 6))]
+    import jax.numpy as jnp
+
+    k = int(rng.integers(0, 4))
+    vals = [int(x) for x in rng.integers(base, base + 5, size=3)]
+    return [np.asarray(vals), jnp.asarray(vals, jnp.float32), tuple(vals), np.asarray([[1.0, 2.0], [3.0, float(base)]])][k]
+
+
+def _kw_equal(a: Dict[str, Any], b: Dict[str, Any]) -> bool:
+    if set(a) != set(b):
+        return False
+    for k in a:
+        x, y = a[k], b[k]
+        if hasattr(x, "shape") or hasattr(y, "shape"):
+            if type(x) is not type(y) or np.asarray(x).shape != np.asarray(y).shape or not np.array_equal(np.asarray(x), np.asarray(y)):
+                return False
+        elif type(x) is not type(y) or x != y:
+            return False
+    return True
 
 
 def run_ops(rep: Report, rng, count: int) -> None:
@@ -165,6 +185,10 @@ def run_ops(rep: Report, rng, count: int) -> None:
 
     EP = "jmon.probe_env:ProbeEnv"
     EP2 = "jmon.probe_env:OtherProbeEnv"
+    EP_SAME_NAME = "jmon.probe_env2:ProbeEnv"
+    from jmon import probe_env2
+
+    entry_of: Dict[str, str] = {}
     mine: Dict[str, Dict[str, Any]] = {}
     log = []
 
@@ -185,10 +209,11 @@ def run_ops(rep: Report, rng, count: int) -> None:
             eid = f"{name}-v{ver}"
             raw = eid if rng.random() < 0.8 else f"{name}-v0{ver}"  # non-canonical spelling must land on the canonical id
             kw = {k: _kw_value(rng, 0) for k in rng.choice(["a", "b", "c", "d"], size=int(rng.integers(0, 4)), replace=False)}
-            log.append(["register", raw, kw])
+            ep_used = EP if rng.random() < 0.6 else EP_SAME_NAME  # same class name, another module
+            log.append(["register", raw, kw, ep_used])
             exists = eid in before
             try:
-                api.register(raw, EP, kwargs=dict(kw)) if kw or rng.random() < 0.5 else api.register(id=raw, entry_point=EP)
+                api.register(raw, ep_used, kwargs=dict(kw)) if kw or rng.random() < 0.5 else api.register(id=raw, entry_point=ep_used)
                 ok = True
             except ValueError:
                 ok = False
@@ -207,6 +232,7 @@ def run_ops(rep: Report, rng, count: int) -> None:
                     if added != {eid} or any(after[k] != before[k] for k in before):
                         viol("registration_adds_exactly_that_id", {"id": raw, "added": sorted(added)})
                     mine[eid] = kw
+                    entry_of[eid] = ep_used
                     if eid not in api.registered_environments():
                         viol("registered_environments_lists_it", {"id": eid})
         elif u < 0.42:
@@ -240,8 +266,10 @@ def run_ops(rep: Report, rng, count: int) -> None:
             eid = str(rng.choice(list(mine)))
             regkw = mine[eid]
             over = {k: _kw_value(rng, 100) for k in rng.choice(["a", "b", "z"], size=int(rng.integers(0, 3)), replace=False)}
-            if any(v is None or v in (0, False, "", ()) for v in over.values()):
+            if any(v is None or (not hasattr(v, "shape") and v in (0, False, "", ())) for v in over.values()):
                 rep.count("make_override_none_or_falsy")
+            if any(hasattr(v, "shape") for v in over.values()):
+                rep.count("make_override_array_valued")
             args = tuple(int(x) for x in rng.integers(0, 9, size=int(rng.integers(0, 3))))
             log.append(["make", eid, list(args), over])
             rep.count("make_known")
@@ -254,12 +282,15 @@ def run_ops(rep: Report, rng, count: int) -> None:
                 continue
             exp = dict(regkw)
             exp.update(over)
-            if type(env) is not probe_env.ProbeEnv:
-                viol("make_builds_registered_class", {"id": eid, "type": type(env).__name__})
-            elif env.kwargs != exp or tuple(env.args) != args or len(probe_env.CALLS) != 1:
+            want_cls = probe_env2.ProbeEnv if entry_of.get(eid) == EP_SAME_NAME else probe_env.ProbeEnv
+            rep.count("make_same_class_name_other_module" if want_cls is probe_env2.ProbeEnv else "make_plain_probe")
+            if type(env) is not want_cls:
+                viol("make_builds_registered_class", {"id": eid, "type": f"{type(env).__module__}.{type(env).__name__}", "registered_entry_point": entry_of.get(eid)},
+                     qualifier="same_class_name_other_module")
+            elif not _kw_equal(env.kwargs, exp) or tuple(env.args) != args or len(probe_env.CALLS) != 1:
                 viol("make_kwargs_registered_overridden_by_caller", {"id": eid, "got": env.kwargs, "expected": exp, "args": list(env.args)},
                      qualifier="override_order" if set(env.kwargs) == set(exp) else "keys")
-            if dict(reg._REGISTRY[eid].kwargs) != spec_kwargs_before:
+            if not _kw_equal(dict(reg._REGISTRY[eid].kwargs), spec_kwargs_before):
                 viol("make_does_not_mutate_registered_kwargs", {"id": eid})
             if snapshot(reg) != before:
                 viol("make_leaves_registry", {"id": eid})
